@@ -91,6 +91,8 @@ def _merge_result(agg, res, keep_samples):
     nontrivial = res.get("nontrivial", True)
     if nontrivial:
         agg["ileaves"].add(res.get("ileave"))
+    for x in res.get("ileaves_extra") or ():
+        agg["ileaves"].add(x)
     agg["stop"][res.get("stop_reason")] += 1
     if res.get("dead_tasks"):
         agg["probes"]["runs_with_a_dead_library_task"] += 1
